@@ -143,7 +143,10 @@ class TreeGen:
             src = rng.choice(NAMES)
             return Node('bind_S_from', S(**{name: Coalesce(getattr(S, src), default=ABSENT)}), name=name, src=src)
         if k == 'A':
-            return Node('bind_A', getattr(A, name), name=name)
+            # (every spelling of "bind the target to this name": attribute, item, Path segment)
+            spelling = rng.choice([lambda: getattr(A, name), lambda: getattr(A, name), lambda: A[name], lambda: Path(A, name), lambda: Path(Path(A), name),
+                                   lambda: Path(getattr(A, name))])
+            return Node('bind_A', spelling(), name=name)
         if k == 'A.globals':
             return Node('bind_G', getattr(A.globals, name), name=name)
         if k == 'vars-new':
@@ -220,7 +223,7 @@ class TreeGen:
                 key = Node('bind_regex', Regex('(?P<%s>o)nly' % name), name=name)
             else:
                 key = self.binder()
-                while key.kind in ('vars_set',):
+                while key.kind in ('vars_set',) or type(key.spec) is Path:      # (a Path object is not hashable: it cannot be a dict key)
                     key = self.binder()
                 if form == 'and':
                     key = Node('and', And(str, key.spec), kids=[Node('pass', str), key])
@@ -683,6 +686,12 @@ def globals_and_spec_scope_in_less_common_places(col):
         ('written per list element, read afterwards', [1, 2, 3], lambda: ([A.globals.last], S.globals.last), 3),
         ('written in a Coalesce branch that then fails', {'a': 1}, lambda: (Coalesce(('a', A.globals.g, T['zz']), T), S.globals.g), 1),
         ('written in an Invoke argument spec', 4, lambda: (Invoke(lambda v: v).specs((A.globals.arg, T)), S.globals.arg), 4),
+        # a nested public glom() call that is handed the running scope belongs to the same top-level call: it reads the globals written
+        # so far, and what it writes is there afterwards
+        ('nested glom(scope=S) reads the outer globals', 6, lambda: (A.globals.g, Invoke(G).specs(T).constants((S.globals.g, lambda v: v + 1)).specs(scope=S)), 7),
+        ('nested glom(scope=S) writes globals the outer call reads', 6, lambda: (Invoke(G).specs(T).constants((A.globals.h, T)).specs(scope=S), S.globals.h), 6),
+        ('nested glom via Call, both directions', 2, lambda: (A.globals.g, Call(G, args=(T, Val((A.globals.h, S.globals.g))), kwargs={'scope': S}),
+                                                             {'g': S.globals.g, 'h': S.globals.h}), {'g': 2, 'h': 2}),
         ('nothing left from the calls before', 5, lambda: Coalesce(S.globals.a, S.globals.x, S.globals.last, S.globals.g, default='empty'), 'empty'),
     ]
     s_cases = [
